@@ -75,3 +75,63 @@ pub fn connected_addrs(network: &RpcNetwork) -> Vec<std::net::SocketAddr> {
     addrs.sort();
     addrs
 }
+
+/// One end of the gossip transport: the real `ChitchatService` registered on `server`
+/// (it feeds a bounded inbox of `inbox` messages) and the real `ChitchatTransport`
+/// socket over the same inbox, as `connect_node` wires them.
+pub struct GossipEndpoint {
+    socket: Box<dyn chitchat::transport::Socket>,
+}
+
+pub async fn gossip_endpoint(
+    listen_addr: std::net::SocketAddr,
+    clock: Clock,
+    network: RpcNetwork,
+    server: &datacake_rpc::Server,
+    inbox: usize,
+) -> GossipEndpoint {
+    use chitchat::transport::Transport;
+
+    let (tx, rx) = flume::bounded(inbox);
+    server.add_service(crate::rpc::services::chitchat_impl::ChitchatService::new(
+        clock.clone(),
+        tx,
+    ));
+    let transport = crate::rpc::chitchat_transport::ChitchatTransport::new(
+        listen_addr,
+        clock,
+        network,
+        rx,
+    );
+    let socket = transport
+        .open(listen_addr)
+        .await
+        .expect("the transport opens on its own listen address");
+    GossipEndpoint { socket }
+}
+
+impl GossipEndpoint {
+    /// Sends a `Syn` whose cluster id is `tag` (or `BadCluster` when `tag` is empty).
+    pub async fn send(&mut self, to: std::net::SocketAddr, tag: &str) -> Result<(), String> {
+        let msg = if tag.is_empty() {
+            chitchat::ChitchatMessage::BadCluster
+        } else {
+            chitchat::ChitchatMessage::Syn {
+                cluster_id: tag.to_string(),
+                digest: Default::default(),
+            }
+        };
+        self.socket.send(to, msg).await.map_err(|e| e.to_string())
+    }
+
+    /// The next message of the inbox: (source address, tag).
+    pub async fn recv(&mut self) -> Result<(std::net::SocketAddr, String), String> {
+        let (from, msg) = self.socket.recv().await.map_err(|e| e.to_string())?;
+        let tag = match msg {
+            chitchat::ChitchatMessage::Syn { cluster_id, .. } => cluster_id,
+            chitchat::ChitchatMessage::BadCluster => String::new(),
+            other => format!("{other:?}"),
+        };
+        Ok((from, tag))
+    }
+}
